@@ -249,6 +249,20 @@ reg("C14", "exploration",
     "DESIGN.md section 3, C14")
 
 
+reg("C19", "fault_enumeration",
+    "Generated-input search over datagram sequences with injected faults: SNMPv2-Trap datagrams built by the independent encoder "
+    "(sysUpTime, snmpTrapOID, 0..8 payload bindings of every type, IPv4 and IPv6 source addresses) are mixed in sequences of 1..12 "
+    "with foreign-community datagrams, SNMPv1 / SNMPv3 datagrams (also as the very first datagram), truncations, single-bit flips and "
+    "random bytes, and injected into the real SNMPTrapReceiverProtocol created by register_trap_callback on a capturing event loop; "
+    "a small tier sends them through real UDP sockets on 127.0.0.1 and ::1. Oracle: the async callback runs exactly once per "
+    "well-formed matching notification, in arrival order, with a Trap (and TrapInfo.origin / uptime / oid / values) equal to what "
+    "the independent decoder reads and Trap.source equal to the sender address; foreign-community datagrams are never delivered; "
+    "a valid datagram after any number of bad ones is still delivered.",
+    "Mutated datagrams are classified by the independent strict decoder (deliver / drop / either); exceptions out of datagram_received are treated as asyncio does (logged, listener alive); runs under the x690 guard and a CPU alarm.",
+    "Hypothesis property-based testing over datagram sequences with fault injection (capturing event loop + real loopback sockets)",
+    "DESIGN.md section 3, C19")
+
+
 def main():
     present = sorted(os.path.basename(p)[:3].upper()
                      for p in glob.glob(os.path.join(VERIF, "checks", "c[0-9][0-9]_*.py")))
